@@ -25,6 +25,8 @@ func main() {
 		os.Exit(pairsMain(os.Args[2:]))
 	case "delays":
 		os.Exit(delaysMain(os.Args[2:]))
+	case "meta":
+		os.Exit(metaMain(os.Args[2:]))
 	}
 	fmt.Fprintln(os.Stderr, "unknown subcommand")
 	os.Exit(2)
